@@ -25,6 +25,7 @@ numerical value of thresholds.
 from .. import protocols
 from ..apitable import shape_of
 from ..harness import arr, index, integer, scalar
+from .. import tq
 from ..interp import State
 from ..terms import Dim, T, V, const, vconst
 
@@ -205,7 +206,7 @@ def _fit_level(ctx, N):
                     ctx.ob("R-BUFFERS", f"{cfg}: buffer extent is the resolved request", sh is not None and sh[0] == want, f"extent {sh} expected ({want},)", site, cfg)
                 else:
                     t = repr(inits[0]["value"].term)
-                    ctx.ob("R-BUFFERS", f"{cfg}: buffer extent is int(n_candidates * fraction)", "int(" in t and "frac" in t and f"dim({S})" in t, f"extent term {t[:200]}", site, cfg)
+                    ctx.ob("R-BUFFERS", f"{cfg}: buffer extent is int(n_candidates * fraction)", tq.has_op(inits[0]["value"].term, "int") and tq.has_sym(inits[0]["value"].term, "frac") and tq.has_size(inits[0]["value"].term, S), f"extent term {t[:200]}", site, cfg)
             # R-TRUNC: the early return inside the greedy loop
             rets = [e for e in I.events[lo:] if e["kind"] == "return" and e.get("short") == "GreedySelector.fit" and e.get("loop_depth", 0) > 0]
             if not ctx.ob("R-TRUNC", f"{cfg}: threshold exit found inside the greedy loop", len(rets) == 1, f"{len(rets)} early returns", site, cfg):
